@@ -481,6 +481,7 @@ def run_stream(exe, st, timeout):
     res = {"rc": rc, "out": out, "err": err, "t": time.time() - t}
     lines = out.splitlines()
     res["breach"] = [l for l in lines if l.startswith("C breach")]
+    res["extent"] = [l for l in lines if l.startswith("C extent")]
     res["ended"] = bool(lines) and lines[-1] == "# end"
     res["nops_done"] = sum(1 for l in lines if l.startswith("# ")) - (1 if res["ended"] else 0)
     res["san"] = sanitizer_summary(err)
@@ -611,6 +612,7 @@ def sanitizer_sweep(ctx, fmin):
     calls = skipped_f1 = timeouts = nrun = 0
     seen = set()
     keep = []          # (stream, result) that need a verdict: failures, and every pinned / corpus case
+    extent_breaks = []
     with ThreadPoolExecutor(common.NCPU) as ex:
         for i, r in ex.map(work, range(len(streams))):
             if r is None:
@@ -631,6 +633,8 @@ def sanitizer_sweep(ctx, fmin):
                     ctx.sample({"env": st["env"], "ops": st["ops"][:8], "result_tail": r["out"].splitlines()[-3:]})
             if ncalls >= 2 and eng:
                 seen.add((tuple(eng), m.get("itype"), m.get("otype"), m.get("ch"), m.get("cls"), m.get("recipe"), m.get("pull"), len(st["ops"])))
+            if r["extent"] and not r["bad"] and len(extent_breaks) < 3:
+                extent_breaks.append((st, r))
             if r["bad"] or i < npinned:
                 keep.append((st, r))
             streams[i] = None
@@ -665,6 +669,11 @@ def sanitizer_sweep(ctx, fmin):
                       {"kind": "api", "env": best["env"], "ops": best["ops"], "report": bres["err"][-2500:], "stdout_tail": bres["out"].splitlines()[-6:],
                        "how": "build harness/fifo/santrace.c with variant san99 (ASan+UBSan, -std=gnu99) against /repo/src and feed ops on stdin with env"})
     ctx.cov["unknown_failures"] = hits
+    ctx.cov["api_calls_write_extent_checked"] = calls
+    for st, r in extent_breaks[:1]:
+        ctx.violation("footprint correspondence broke: the library wrote beyond `odone` frames of the output buffer (still inside olen, so the buffer contract holds on this "
+                      "input), but the footprint model of Properties/C07 (process_footprint: write set = out[0, odone*ch)) no longer describes soxr.c: " + "; ".join(r["extent"][:3]),
+                      {"kind": "api", "env": st["env"], "ops": st["ops"][:max(1, r["nops_done"])], "stdout_tail": r["out"].splitlines()[-6:]}, no_input=True)
     return hits
 
 
